@@ -652,7 +652,7 @@ impl<'a> Gen<'a> {
     fn prefix_operand(&mut self, op: &str, depth: u32) -> MExpr {
         for _ in 0..50 {
             let x = self.expr(depth);
-            if self.defects || follows_ok(op, &x) { return x; }
+            if self.defects || glue_guard() || follows_ok(op, &x) { return x; }
         }
         MExpr::Var(MVar::Named(None, "a".into()))
     }
@@ -715,7 +715,7 @@ impl<'a> Gen<'a> {
                 _ => {
                     self.bump("s_rel_time");
                     let mut e = self.expr(1);
-                    while !self.defects && first_text_char(&e) == Some('+') { e = self.expr(1); }
+                    while !self.defects && !glue_guard() && first_text_char(&e) == Some('+') { e = self.expr(1); }
                     MKind::RelTime(e, if self.rng.chance(1, 2) { Some(self.int_value()) } else { None })
                 },
             },
@@ -793,6 +793,15 @@ impl<'a> Gen<'a> {
 // the printable class on the mirror (mirrors Spec/Fmt.v pr_expr; the Coq side recomputes it) and
 // the classes of the known defects
 
+/// does the formatter under test parenthesize an operand that would fuse with a prefix operator
+/// (fixes/c08-unary-operand-glue.diff)?  Observed once, on `-` applied to the literal -3.
+fn glue_guard() -> bool {
+    static G: std::sync::OnceLock<bool> = std::sync::OnceLock::new();
+    *G.get_or_init(|| {
+        let e = MExpr::Un("-".into(), Box::new(MExpr::LitI(-3, true, 0)));
+        print_with(&Sup(&to_expr(&e)), 100).ok().as_deref() == Some("-(-3)")
+    })
+}
 fn first_text_char(e: &MExpr) -> Option<char> {
     print_with(&to_expr(e), 1000).ok().and_then(|t| t.chars().next())
 }
@@ -821,7 +830,7 @@ fn defect_class(e: &MExpr) -> Option<&'static str> {
         MExpr::Tern(a, b, c) => sub(vec![a, b, c]),
         MExpr::Bin(a, _, b) => sub(vec![a, b]),
         MExpr::Un(op, x) => {
-            if PREFIX_OPS.contains(&op.as_str()) {
+            if PREFIX_OPS.contains(&op.as_str()) && !glue_guard() {
                 match first_text_char(x) {
                     Some('-') if op == "-" => return Some("c08-glue:minus-minus"),
                     Some(c) if op == "!" && "-*ENHLWXYZO4567=".contains(c) => return Some("c08-glue:not-difficulty"),
@@ -845,7 +854,7 @@ fn pr_expr(e: &MExpr) -> bool {
     match e {
         MExpr::Tern(a, b, c) => pr_expr(a) && pr_expr(b) && pr_expr(c),
         MExpr::Bin(a, _, b) => pr_expr(a) && pr_expr(b),
-        MExpr::Un(op, x) => pr_expr(x) && (!PREFIX_OPS.contains(&op.as_str()) || follows_ok(op, x)),
+        MExpr::Un(op, x) => pr_expr(x) && (!PREFIX_OPS.contains(&op.as_str()) || glue_guard() || follows_ok(op, x)),
         MExpr::Xcr { var, .. } => pr_var(var),
         MExpr::Var(v) => pr_var(v),
         MExpr::Call(n, ps, args) => (match n { MName::Normal(s) => valid_ident(s) && s != "rad", MName::Ins(_) => true }) && ps.iter().all(|p| pr_expr(&p.1)) && args.iter().all(pr_expr),
@@ -1122,7 +1131,7 @@ fn top_keys_ok(top: &Top) -> bool {
 /// a relative time label `+delta:` whose delta prints with a leading `+` (pre-increment): `+++x:`
 fn stmt_plus_glue(s: &MStmt) -> bool {
     match &s.kind {
-        MKind::RelTime(e, _) => first_text_char(e) == Some('+'),
+        MKind::RelTime(e, _) => !glue_guard() && first_text_char(e) == Some('+'),
         MKind::Item(i) => item_plus_glue(i),
         MKind::Loop(b) | MKind::Block(b) => b.iter().any(stmt_plus_glue),
         MKind::CondChain(cbs, els) => cbs.iter().any(|(_, _, b)| b.iter().any(stmt_plus_glue)) || els.iter().flatten().any(stmt_plus_glue),
